@@ -525,17 +525,18 @@ def run(ck: core.Check):
 
         cur, diff = SRC.changed()
         ck.cov["covered_sources"] = {"functions_hashed": len(cur), "differ_from_baseline": diff[:40],
-                                     "escalated_to_thorough_counts": bool(diff) and not ck.thorough}
+                                     "escalated_generation_counts_x2.5": bool(diff) and not ck.thorough}
     except Exception as e:  # noqa: BLE001
         diff = ["<hashing failed>"]
         ck.cov["covered_sources"] = {"error": f"{type(e).__name__}: {e}"}
-    big = ck.thorough or bool(diff)
+    escalated = bool(diff) and not ck.thorough
     if diff and not ck.thorough:
         ck.log(f"covered sources changed ({len(diff)}: {', '.join(diff[:4])}{' ...' if len(diff) > 4 else ''}) "
-               "-> thorough generation counts")
+               "-> 2.5x generation counts")
 
     def pick(q, t):
-        return t if big else q
+        # (the full thorough counts would take the quick tier far beyond its time budget on a loaded machine)
+        return t if ck.thorough else (min(t, int(q * 2.5)) if escalated else q)
 
     n_oracle = pick(700, 6000)
     n_collect = pick(400, 4000)
